@@ -385,7 +385,9 @@ def jsd_case(draw):
         P[0] = 1.0
     if Q.sum() == 0:
         Q[-1] = 1.0
-    return dict(P=P.tolist(), Q=Q.tolist(), a=draw(gens.log_uniform(1e-3, 1e3)), b=draw(gens.log_uniform(1e-3, 1e3)))
+    # the documented `base` option: "the logarithmic base to use" (None = the default, 2)
+    base = draw(st.sampled_from([None, None, 2, 2.0, math.e, 3, 4, 10, 10.0, 1.5]))
+    return dict(P=P.tolist(), Q=Q.tolist(), a=draw(gens.log_uniform(1e-3, 1e3)), b=draw(gens.log_uniform(1e-3, 1e3)), base=base)
 
 
 def own_jsd(P, Q):
@@ -408,7 +410,13 @@ def body_jsd(case):
         d_scaled = float(dreye.compute_jensen_shannon_divergence(P * case["a"], Q * case["b"]))
         d_self = float(dreye.compute_jensen_shannon_divergence(P, P * case["a"]))
         sim = float(dreye.compute_jensen_shannon_similarity(P, Q))
+        base = case.get("base")
+        d_base = None if base is None else float(dreye.compute_jensen_shannon_divergence(P, Q, base=base))
     ex = own_jsd(P, Q)
+    if d_base is not None:
+        # a change of the logarithm's base rescales the divergence by ln 2 / ln base
+        ex_b = ex * math.log(2.0) / math.log(base)
+        check(abs(d_base - ex_b) <= 4e-12, "jsd:base", f"divergence with base={base!r} is {d_base!r}, definition gives {ex_b!r}")
     check(abs(d - ex) <= 1e-12, "jsd:value", f"divergence {d!r}, definition gives {ex!r}")
     check(abs(d - d_sym) <= 1e-12, "jsd:symmetry", f"{d} vs {d_sym}")
     check(abs(d - d_scaled) <= 1e-12, "jsd:normalisation-invariance", f"{d} vs {d_scaled} after rescaling the inputs")
@@ -416,7 +424,7 @@ def body_jsd(case):
     check(-1e-12 <= d <= 1.0 + 1e-12, "jsd:range", f"divergence {d} outside [0, 1] bit")
     check(abs(sim - (1.0 - d)) <= 1e-12, "jsd:similarity", f"similarity {sim} != 1 - divergence {1 - d}")
     p, q = P / P.sum(), Q / Q.sum()
-    labs = [f"k{len(P)}"]
+    labs = [f"k{len(P)}", "base:default" if case.get("base") is None else "base:given"]
     if np.max(np.abs(p - q)) > 1e-4:
         check(d >= 1e-9, "jsd:zero-for-different", f"divergence {d} for clearly different distributions")
         labs.append("different")
